@@ -2,6 +2,6 @@ package main
 
 func init() {
 	props["C34"] = &propCfg{Engine: "dhtsim", Test: "TestC34", Level: "exploration",
-		Quick:    tierCfg{Runs: 32000, BudgetS: 120},
+		Quick:    tierCfg{Runs: 16000, BudgetS: 120},
 		Thorough: tierCfg{Runs: 2000000, JobSize: 25000, BudgetS: 1500}}
 }
